@@ -62,7 +62,7 @@ def run(db, res, tier):
   ncl = r_live.check_cleared_before_partial(res, db, ["forward.step", "forward.forward", "inverse.inverse"], live_tables.CLEARED_BEFORE_PARTIAL)
   res.floor("cleared-before-partial-write obligations", ncl, 18)
   nfresh = r_live.check_fresh_rows_not_read(res, db, all_lcs)
-  res.floor("row/slot allocating kernels examined for reads of fresh cells", nfresh, 20)
+  res.floor("row/slot allocating kernels examined for reads of fresh cells", nfresh, 15)
   nslot = r_live.check_slot_records(res, db, all_lcs)
   res.floor("contact-slot record obligations", nslot, 80)
   res.floor("trace events with effects", total_ev, 2500)
